@@ -206,6 +206,9 @@ LATTICE_CFGS = {
     "di_q": ("MC_Tracking_di_q.cfg", 1, 3, True, "distance", 1),
     "di_q2": ("MC_Tracking_di_q2.cfg", 1, 4, False, "distance", None),
     "ov_q2": ("MC_Tracking_ov_q2.cfg", 1, 5, False, "overlap", None),
+    # competing candidates: wide enough that the closest-pair-first rule and a minimal-total-distance assignment differ
+    "di_q3": ("MC_Tracking_di_q3.cfg", 1, 6, False, "distance", None),
+    "di_q4": ("MC_Tracking_di_q4.cfg", 1, 6, False, "distance", 4),
     "ov_t": ("MC_Tracking_ov_t.cfg", 1, 5, True, "overlap", None),
     "ov_t2": ("MC_Tracking_ov_t2.cfg", 1, 4, False, "overlap", None),
     "di_t": ("MC_Tracking_di_t.cfg", 1, 4, True, "distance", None),
@@ -216,7 +219,7 @@ LATTICE_CFGS = {
     "ov_2d": ("MC_Tracking_ov_2d.cfg", 2, 3, True, "overlap", None),
     "di_2d": ("MC_Tracking_di_2d.cfg", 2, 3, True, "distance", 2),
 }
-QUICK = ["ov_q", "di_q", "di_q2", "ov_q2"]
+QUICK = ["ov_q", "di_q", "di_q2", "ov_q2", "di_q3", "di_q4"]
 THOROUGH = QUICK + ["ov_t", "ov_t2", "di_t", "di_t1", "di_t0", "di_tn", "di_t4", "ov_2d", "di_2d"]
 
 
